@@ -79,7 +79,11 @@ def check(repo: Repo, rep: Report) -> None:
                     rep.ob("F1-finally-sites", g, "subscribe-failure path: action(); raise", ok,
                            "the action runs in subscribe outside the failure handler, or the failure is swallowed")
                 else:
-                    disp_call = [x for x in sites(g) if isinstance(x.node, ast.Call) and dotted(x.node.func) == "subscription.dispose"]
+                    subs_v = {t.id for x in sites(fsub) if isinstance(x.node, ast.Assign) and isinstance(x.node.value, ast.Call)
+                              and isinstance(x.node.value.func, ast.Attribute) and x.node.value.func.attr == "subscribe"
+                              for t in x.node.targets if isinstance(t, ast.Name)}
+                    disp_call = [x for x in sites(g) if isinstance(x.node, ast.Call) and isinstance(x.node.func, ast.Attribute)
+                                 and x.node.func.attr == "dispose" and dotted(x.node.func.value) in subs_v]
                     ok = bool(s.ctx.finals) and bool(disp_call) and any(t in d.ctx.tries for t in s.ctx.finals for d in disp_call)
                     rep.ob("F1-finally-sites", g, "dispose hook: finally: action() after subscription.dispose()", ok,
                            "the action is not in a `finally` around subscription.dispose(): it is skipped when the dispose raises, "
@@ -90,6 +94,18 @@ def check(repo: Repo, rep: Report) -> None:
                            "the hook that runs the action is not (only) wrapped in the returned Disposable: it can run twice or never")
     # ---- do_finally ---------------------------------------------------------------
     df = repo.fn(DO, "do_finally")
+    dsub = repo.fn(DO, "do_finally.subscribe")
+    from ..rules import locals_by_init
+    # role: the once-flag is the one-element [False] list allocated in subscribe and handed to the dispose hook
+    flags = locals_by_init(dsub, lambda v: isinstance(v, ast.List) and len(v.elts) == 1 and isinstance(v.elts[0], ast.Constant) and v.elts[0].value is False)
+    def flag_text(g, e):
+        """text of the flag cell if e denotes it (`flag[0]` in the handlers, `self.<attr>[0]` in the hook class)"""
+        base = e.value if isinstance(e, ast.Subscript) else e
+        if isinstance(base, ast.Name) and base.id in flags and g.owner(base.id) is dsub:
+            return u(e)
+        if isinstance(base, ast.Attribute) and dotted(base.value) == "self":
+            return u(e)
+        return None
     n_inv = 0
     for g in df.walk():
         if not g.is_func:
@@ -98,20 +114,18 @@ def check(repo: Repo, rep: Report) -> None:
             n = s.node
             if isinstance(n, ast.Call) and isinstance(n.func, ast.Name) and n.func.id == "finally_action":
                 n_inv += 1
-                flag = [e for e, p in s.ctx.guards if not p and "was_invoked" in u(e)]
-                sets = [x for x in sites(g) if isinstance(x.node, ast.Assign) and "was_invoked" in u(x.node.targets[0])
+                flag = [flag_text(g, e) for e, p in s.ctx.guards if not p and flag_text(g, e)]
+                sets = [x for x in sites(g) if isinstance(x.node, ast.Assign) and u(x.node.targets[0]) in flag
                         and isinstance(x.node.value, ast.Constant) and x.node.value.value is True and x.ctx.branch == s.ctx.branch]
                 rep.ob("D1-once-flag", g, f"{g.qual.split('.', 1)[-1]}: {short(s.node)}", bool(flag) and bool(sets),
                        "the finally-action is invoked without `not was_invoked` dominating it / without setting the flag on the "
                        "same path: it runs again on dispose after a terminal notification")
     rep.require(n_inv >= 3, "invocations of finally_action in do_finally")
-    dsub = repo.fn(DO, "do_finally.subscribe")
-    flag_alloc = [s for s in sites(dsub) if isinstance(s.node, ast.Assign) and u(s.node.targets[0]) == "was_invoked"]
-    rep.ob("D1-once-flag", dsub, "was_invoked allocated per subscription", bool(flag_alloc),
+    rep.ob("D1-once-flag", dsub, "was_invoked allocated per subscription", len(flags) == 1,
            "the once-flag is not allocated in subscribe: subscriptions share it")
     hook = [s for s in sites(dsub) if isinstance(s.node, ast.Call) and isinstance(s.node.func, ast.Attribute) and s.node.func.attr == "add"
             and s.node.args and isinstance(s.node.args[0], ast.Call) and call_name(s.node.args[0]) == "OnDispose"
-            and [u(a) for a in s.node.args[0].args] == ["was_invoked"]]
+            and [u(a) for a in s.node.args[0].args] == flags]
     ret_ok = any(isinstance(s.node, ast.Return) and hook and u(s.node.value) == dotted(hook[0].node.func.value) for s in sites(dsub))
     rep.ob("D1-once-flag", dsub, "OnDispose(was_invoked) held by the returned composite", bool(hook) and ret_ok,
            "the dispose hook is not part of the returned disposable: the action does not run on unsubscribe")
